@@ -31,7 +31,9 @@ SPEC = {
                   "sharding DAG service (ingestBlock, flushCurrentShard, shard.Flush, makeDAG, Finalize) for every importer stream, root, "
                   "shard limit, MaxLinks > 0, allocation script, put-outcome script and pin-outcome script; the transcription is compared "
                   "event by event with the real services on generated streams at every run and the implementation's own trace is checked "
-                  "against the boolean form of each clause",
+                  "against the boolean form of each clause (codes 10..15); each of these monitors is proved sound (delivered_/partition_/under_limit_/"
+                  "depth_/final_pins_/failure_monitor_sound: an accepted trace satisfies the Prop-level clause) and complete for the model "
+                  "(model_passes_monitors: for every strict input the model's own result and trace, sharded, unsharded or aborted, pass all six)",
     "level_note": "partial: the importer (chunkers, layouts, UnixFS, dag-pb, SHA-256) is an input of the model; closure of the delivered "
                   "blocks, byte-for-byte read-back and root equality (sharded = unsharded = go-unixfs importer) are differential tests on "
                   "generated file trees, not proofs. Model tied to code by differential testing (generator-bounded)",
